@@ -118,4 +118,5 @@ package activeauth
 //@        && result0.Evidence != nil && result0.Evidence.Nonce === evidence.Nonce && result0.Evidence.Signature === evidence.Signature
 //@   ensures "recorded-algorithm-is-the-dg15-key-algorithm": result0 != nil && result0.Success ==> result0.Evidence.Algorithm === evidence.Algorithm
 //@   ensures "success-iff-no-error": result0 != nil ==> (result0.Success == (result1 == nil))
+//@   assigns nothing
 //@   safety all
